@@ -11,6 +11,22 @@ use serde_json::json;
 
 pub struct C10;
 
+/// string lengths of the `string-bytes` generator
+const STRING_BYTE_LENGTHS: [usize; 126] = {
+    let mut a = [0usize; 126];
+    let mut i = 0;
+    while i < 96 {
+        a[i] = i + 1;
+        i += 1;
+    }
+    let extra = [120, 127, 128, 129, 135, 136, 137, 143, 255, 256, 257, 263, 271, 511, 512, 513, 519, 527, 1023, 1024, 1025, 1031, 1039, 2047, 2048, 2049, 4095, 4096, 4097, 4111];
+    let mut k = 0;
+    while k < 30 {
+        a[96 + k] = extra[k];
+        k += 1;
+    }
+    a
+};
 #[derive(Default)]
 struct Stats {
     ok: u64,
@@ -478,6 +494,9 @@ impl Prop for C10 {
             GenSpec::enumerated("scaling", tier.pick(8, 11)),
             // single records between 32 KiB and the 65534-byte limit (what a foreign writer may legally produce): accepted ones must be writable again
             GenSpec::random("big-records", tier.pick(24, 400)),
+            // one byte of one string made a byte that cannot stand there in UTF-8: every position of every string length 1..=96 and
+            // around 128 .. 4096 (a validity scan that goes by words or blocks has windows it never looks at)
+            GenSpec::enumerated("string-bytes", STRING_BYTE_LENGTHS.len() as u64),
             // one well-formed record repeated tens of thousands of times in a row (MAG, ANGLE, PROPATTR/PROPVALUE pairs, XY, STRING ...):
             // handling a run must need neither time nor stack proportional to more than its length
             GenSpec::enumerated("long-runs", tier.pick(8, 24)),
@@ -519,6 +538,82 @@ impl Prop for C10 {
                     }
                     _ => cx.count("repo_files_missing"),
                 }
+            }
+            "string-bytes" => {
+                let l = STRING_BYTE_LENGTHS[cx.n as usize];
+                fn rec(rt: u8, dt: u8, payload: &[u8]) -> Vec<u8> {
+                    let mut p = payload.to_vec();
+                    if p.len() % 2 == 1 {
+                        p.push(0);
+                    }
+                    let mut v = ((p.len() + 4) as u16).to_be_bytes().to_vec();
+                    v.push(rt);
+                    v.push(dt);
+                    v.extend_from_slice(&p);
+                    v
+                }
+                let i16s = |xs: &[i16]| xs.iter().flat_map(|x| x.to_be_bytes()).collect::<Vec<u8>>();
+                let one = 0x4110_0000_0000_0000u64.to_be_bytes();
+                let text: Vec<u8> = (0..l).map(|i| b'a' + (i % 26) as u8).collect();
+                // which string record carries the long string: 0 = TEXT STRING, 1 = PROPVALUE, 2 = STRNAME (+ nothing refers to it), 3 = LIBNAME
+                let mut st = Stats::default();
+                for site in 0..4usize {
+                    let s_of = |k: usize| if k == site { text.clone() } else { b"ab".to_vec() };
+                    let mut v = Vec::new();
+                    v.extend(rec(0x00, 2, &i16s(&[600])));
+                    v.extend(rec(0x01, 2, &i16s(&[1; 12])));
+                    v.extend(rec(0x02, 6, &s_of(3)));
+                    v.extend(rec(0x03, 5, &[one, one].concat()));
+                    v.extend(rec(0x05, 2, &i16s(&[1; 12])));
+                    v.extend(rec(0x06, 6, &s_of(2)));
+                    v.extend(rec(0x0C, 0, &[]));
+                    v.extend(rec(0x0D, 2, &i16s(&[1])));
+                    v.extend(rec(0x16, 2, &i16s(&[0])));
+                    v.extend(rec(0x10, 3, &[0u8; 8]));
+                    let string_at = v.len() + 4;
+                    v.extend(rec(0x19, 6, &s_of(0)));
+                    v.extend(rec(0x2B, 2, &i16s(&[7])));
+                    v.extend(rec(0x2C, 6, &s_of(1)));
+                    v.extend(rec(0x11, 0, &[]));
+                    v.extend(rec(0x07, 0, &[]));
+                    v.extend(rec(0x04, 0, &[]));
+                    // where the long string's payload starts
+                    let at = match site {
+                        0 => string_at,
+                        _ => {
+                            let mut pos = 0usize;
+                            let want = [0x19u8, 0x2C, 0x06, 0x02][site];
+                            let mut found = 0;
+                            while pos + 4 <= v.len() {
+                                let rl = u16::from_be_bytes([v[pos], v[pos + 1]]) as usize;
+                                if v[pos + 2] == want {
+                                    found = pos + 4;
+                                    break;
+                                }
+                                pos += rl;
+                            }
+                            found
+                        }
+                    };
+                    if site < 2 || l <= 96 {
+                        self.probe(cx, &v, false, "string-bytes|intact", &mut st);
+                        // positions: all for short strings, a window around every multiple of 8 near the ends and a stride elsewhere for long ones
+                        let positions: Vec<usize> = if l <= 160 { (0..l).collect() } else { (0..l).filter(|p| *p < 72 || l - *p <= 72 || p % 61 == 0).collect() };
+                        for p in positions {
+                            for bad in [0x80u8, 0xA9, 0xC3, 0xE2, 0xFF] {
+                                let mut m = v.clone();
+                                m[at + p] = bad;
+                                // 0xC3 / 0xE2 start a sequence: make sure what follows is not a continuation byte (it is ASCII here), so the text is invalid
+                                self.probe(cx, &m, false, "string-bytes", &mut st);
+                                cx.eval();
+                            }
+                        }
+                    }
+                }
+                cx.nontrivial(0x57B7_0000 | l as u64);
+                cx.count_n("string_byte_mutants_accepted", st.ok);
+                cx.count_n("string_byte_mutants_rejected", st.err);
+                cx.sample(|| json!({"string_length": l}));
             }
             "big-records" => {
                 let (ast, what) = big_record_lib(&mut cx.rng);
